@@ -16,7 +16,7 @@ import itertools
 
 from .. import rx, templates as T
 from ..affine import Aff, LenStr
-from ..domains import Cond, AbsStr
+from ..domains import Cond, AbsStr, _AbsBound
 from ..interp import (AbstractValue, Interp, Oracle, Obj, Unknown, enumerate_paths, Raised, RxVal, is_abstract)
 from ..model import AnalysisError, loc
 
@@ -85,12 +85,90 @@ class FilterFn(AbstractValue):
         return self.result
 
 
+class Headings(AbstractValue):
+    """The entries collected so far: contents unknown (any earlier headings), so a membership or
+    length test on it is undetermined and forks; appends are recorded in order."""
+    def __init__(self):
+        self.appended = []
+        self.other = []
+
+    def abs_getattr(self, interp, name):
+        return _AbsBound(self, name)
+
+    def abs_method(self, interp, name, args, kwargs):
+        if name == 'append' and len(args) == 1:
+            self.appended.append(args[0])
+            return None
+        self.other.append(name)
+        return Unknown('_headings.%s()' % name)
+
+    def abs_contains(self, interp, item):
+        return Unknown('entry in _headings')
+
+    def abs_truth(self, interp):
+        return Unknown('bool(_headings)')
+
+
 class Marker(T.Markup):
     def __init__(self, what):
         T.Markup.__init__(self, what=what)
 
     def abs_method(self, interp, name, args, kwargs):
         return Unknown('%s.%s()' % (self.what, name))
+
+
+def heading_classes(model):
+    """The heading token classes: block token classes whose constructor sets `level` (ATX and setext)."""
+    out = []
+    base = model.cls('block_token.BlockToken')
+    for ci in model.subclasses_of(base):
+        init = ci.methods.get('__init__')
+        if init is None:
+            continue
+        for n in ast.walk(init.node):
+            if isinstance(n, ast.Attribute) and isinstance(n.ctx, ast.Store) and n.attr == 'level' \
+                    and isinstance(n.value, ast.Name) and n.value.id == 'self':
+                out.append(ci)
+                break
+    return out
+
+
+def _always_delegates(fi, name):
+    """Every path through fi reaches a `self.<name>(token)` call before returning (one-step forwarder)."""
+    body = [st for st in fi.node.body if not (isinstance(st, ast.Expr) and isinstance(st.value, ast.Constant))]
+    if len(body) != 1 or not isinstance(body[0], ast.Return) or body[0].value is None:
+        return False
+    c = body[0].value
+    return isinstance(c, ast.Call) and isinstance(c.func, ast.Attribute) and c.func.attr == name \
+        and isinstance(c.func.value, ast.Name) and c.func.value.id == fi.node.args.args[0].arg
+
+
+def rule_wired(ctx, rep, toc, collector):
+    """One entry per heading, ATX and setext: in every TocRenderer configuration each heading token class
+    is dispatched to the collecting method (or to a method that does nothing but forward to it through self)."""
+    model = ctx.model
+    rep.rule('R-TOC-WIRED', 'every heading token class is dispatched to the collecting method in every TocRenderer configuration')
+    hcs = heading_classes(model)
+    if len(hcs) < 2:
+        raise AnalysisError('anchor vanished: expected the ATX and setext heading classes, found %s' % [c.short for c in hcs])
+    for cfg in ctx.configs():
+        if cfg.label != 'TocRenderer':
+            continue
+        for hc in hcs:
+            rep.instance('R-TOC-WIRED')
+            target = cfg.render_map.get(hc.name)
+            ok = target is collector or (hasattr(target, 'node') and _always_delegates(target, collector.node.name)
+                                         and toc.lookup(collector.node.name)[1] is collector)
+            rep.obligation('R-TOC-WIRED', ok, {'config': cfg.key(), 'token': hc.name,
+                                               'dispatched_to': getattr(target, 'short', repr(target))})
+            if not ok:
+                rep.find('R-TOC-WIRED', getattr(target, 'short', repr(target)), '%s@%s' % (hc.name, cfg.label),
+                         'in %s, %s tokens are rendered by %s, which neither is nor forwards to the collecting method %s: '
+                         'such headings never reach the table of contents'
+                         % (cfg.key(), hc.name, getattr(target, 'short', repr(target)), collector.short),
+                         loc(model.unit_of(target.cls if hasattr(target, 'cls') and target.cls else toc),
+                             target.node if hasattr(target, 'node') else toc.node))
+    rep.floor('R-TOC-WIRED', rep.rules['R-TOC-WIRED']['obligations'], 4)
 
 
 def run(ctx):
@@ -122,16 +200,18 @@ def run(ctx):
             seen = {}
             it.func_hooks[prh.qualname] = lambda interp, fi, args, kwargs: seen.setdefault('arg', args[-1]) and content
             r = T.clone_obj(cfg.obj)
-            prev = object()
+            prev = Headings()
             log = []
             r.attrs.update({'omit_title': A, 'depth': Depth(), 'filter_conds': [FilterFn(x, log) for x in shape],
-                            '_headings': [prev]})
+                            '_headings': prev})
             tok = Obj(model.cls('block_token.Heading'), {'level': Level(B, C)})
             try:
                 ret = it.call_function(rh, [r, tok], {})
             except Raised as e:
                 return ('raise', e.exc.kind, None, None, None, None, None, None)
-            return ('ret', ret, r.attrs['_headings'], prev, tok, rendered, content, (seen.get('arg'), log))
+            hs = r.attrs['_headings']
+            hs = [prev] + list(prev.appended) if hs is prev and not prev.other else ['rebound-or-mutated', hs, prev.other]
+            return ('ret', ret, hs, prev, tok, rendered, content, (seen.get('arg'), log))
         outcomes = []
         for trace, out in enumerate_paths(runner, 64):
             outcomes.append(out)
@@ -148,7 +228,10 @@ def run(ctx):
         if not ok:
             rep.find('R-TOC-FILTER', rh.short, 'row(omit_title=%s,level==1:%s,level>depth:%s,filter=%s)' % (A, B, C, D),
                      'with omit_title=%s, level==1 is %s, level>depth is %s, filters %s the heading is %s but should be %s'
-                     % (A, B, C, shape, 'collected' if True in collected else 'not collected / undetermined %s' % sorted(map(str, collected)),
+                     % (A, B, C, shape,
+                        'collected on some paths and left out on others (the decision depends on something other than the '
+                        'options, the level and the filters, e.g. the entries collected so far)' if collected == {True, False}
+                        else 'collected' if collected == {True} else 'not collected / undetermined %s' % sorted(map(str, collected)),
                         'collected' if want else 'left out'), loc(unit, rh.node))
         # order / tuple / return value, on the rows where it is collected
         for kind, ret, hs, prev, tok, rendered, content, extra in outcomes:
@@ -176,6 +259,7 @@ def run(ctx):
             for p in problems:
                 rep.find('R-TOC-ORDER', rh.short, p.split(':')[0][:50], p, loc(unit, rh.node))
     rep.floor('R-TOC-FILTER', rep.rules['R-TOC-FILTER']['obligations'], 40)
+    rule_wired(ctx, rep, toc, rh)
 
     # parse_rendered_heading removes tags
     rep.instance('R-TOC-ORDER')
